@@ -6,7 +6,7 @@
    (column names, list of partitions)).  [split] is Context.parallelize's re-slicing of a collected list;
    the theorems hold for EVERY split with concat (split h l) = l ([split_law]). *)
 From Coq Require Import ZArith NArith Bool String List Permutation Sorted.
-From Coq Require Import PrimFloat.
+From Coq Require Import PrimFloat SpecFloat FloatOps.
 Require Import PV.Base.Num PV.Gen.SqlTables PV.Model.SqlExpr PV.Model.SqlRel.
 Require Import PV.Proofs.SqlExpr PV.Proofs.SqlSort PV.Proofs.SqlRel.
 Import ListNotations.
@@ -91,13 +91,13 @@ Theorem C12_limit_prefix : forall split, split_law split -> forall n d,
   cols (limit split n d) = cols d /\ collect (limit split n d) = firstn n (collect d).
 Proof. exact limit_prefix. Qed.
 
-Theorem C12_union_concat : forall d o,
+Theorem C12_union_concat : forall split, split_law split -> forall d o,
   length (cols d) = length (cols o) ->
-  exists d', union d o = Some d' /\ cols d' = cols d /\ collect d' = collect d ++ collect o.
+  exists d', union split d o = Some d' /\ cols d' = cols d /\ collect d' = collect d ++ collect o.
 Proof. exact union_concat. Qed.
 
-Theorem C12_unionByName_concat : forall d o d',
-  unionByName d o = Some d' ->
+Theorem C12_unionByName_concat : forall split, split_law split -> forall d o d',
+  unionByName split d o = Some d' ->
   cols d' = cols d /\
   exists rs, map_opt (reorder_row (cols o) (cols d)) (collect o) = Some rs /\ collect d' = collect d ++ rs.
 Proof. exact unionByName_concat. Qed.
@@ -145,8 +145,7 @@ Theorem C12_sort_spec : forall split, split_law split -> forall (ok : row -> Pro
 Proof. exact sort_spec. Qed.
 
 (* for keys that are well-typed int / boolean / string expressions over typed rows the strict-weak-order
-   hypothesis is discharged (double keys additionally need the IEEE order to be total on the values at
-   hand, i.e. no NaN: C12_sort_spec with that as hypothesis) *)
+   hypothesis is discharged outright *)
 Theorem C12_sort_spec_typed : forall split, split_law split -> forall G ks d d',
   cols d = map fst G -> Forall (fun r => row_ok G r = true) (collect d) ->
   Forall (fun k => exists t, wt false G (fst k) t = true /\ discrete t = true) ks ->
@@ -158,6 +157,25 @@ Theorem C12_sort_spec_typed : forall split, split_law split -> forall G ks d d',
   StronglySorted (le_of lt) (collect d') /\
   (forall z, row_ok G z = true -> filter (eqv_of lt z) (collect d') = filter (eqv_of lt z) (collect d)).
 Proof. exact sort_spec_typed. Qed.
+
+(* keys of EVERY type, doubles included.  The only facts about floats used are the standard specification
+   of PrimFloat.ltb -- the statement of the stdlib axiom FloatAxioms.ltb_spec, kept as an explicit premise
+   so that the theorem itself uses no axiom -- and that no key value is NaN *)
+Theorem C12_sort_spec_all_types :
+  (forall x y : float, PrimFloat.ltb x y = SFltb (Prim2SF x) (Prim2SF y)) ->
+  forall split, split_law split -> forall G ks d d',
+  cols d = map fst G ->
+  Forall (fun r => row_ok G r = true /\ keys_not_nan (cols d) ks r) (collect d) ->
+  Forall (fun k => exists t, wt false G (fst k) t = true) ks ->
+  sort_df split ks d = Some d' ->
+  let lt := lexn (map (row_lt (cols d)) ks) in
+  cols d' = cols d /\
+  collect d' = isort lt (collect d) /\
+  Permutation (collect d') (collect d) /\
+  StronglySorted (le_of lt) (collect d') /\
+  (forall z, row_ok G z = true -> keys_not_nan (cols d) ks z ->
+             filter (eqv_of lt z) (collect d') = filter (eqv_of lt z) (collect d)).
+Proof. exact sort_spec_typed_all. Qed.
 
 (* what one key's order is: the regenerated sort_order strings and membership lists give every SortOrder
    wrapper its SQL direction and null placement ... *)
@@ -251,4 +269,16 @@ Proof.
   split; [repeat constructor|]. split.
   - repeat constructor; [exists TInt | exists TBool]; split; reflexivity.
   - vm_compute. repeat split.
+Qed.
+
+(* ORDER BY x DESC (nulls last) on the double column: 1.5, then 0.0 and -0.0 (equal: input order), then null;
+   the hypotheses of C12_sort_spec_all_types hold of these rows *)
+Example ex_sort_double :
+  Forall (fun r => row_ok G0 r = true /\ keys_not_nan (cols d0) [(ECol nX, DDesc)] r) (collect d0) /\
+  Forall (fun k => exists t, wt false G0 (fst k) t = true) [(ECol nX, DDesc)] /\
+  option_map collect (sort_df one [(ECol nX, DDesc)] d0) = Some [r0; r1; r3; r2].
+Proof.
+  split; [|split; [repeat constructor; exists TDbl; reflexivity | vm_compute; reflexivity]].
+  repeat (constructor; [split; [reflexivity | constructor; [vm_compute; try exact I; discriminate | constructor]]|]).
+  constructor.
 Qed.
